@@ -70,7 +70,7 @@ def shards(tier):
 
 def required_counters(tier):
     return {
-        "calls.well_typed": 1000, "classes.constructions": 30, "joint_typechecker.calls": 5, "coroutine_protocol.scripts": 10, "how_called.calls": 12, "factory.calls": 18, "signature_sources.targets": 4,
+        "calls.well_typed": 1000, "classes.constructions": 30, "joint_typechecker.calls": 5, "coroutine_protocol.scripts": 10, "how_called.calls": 12, "factory.calls": 18, "property_derivation.compared": 20, "signature_sources.targets": 4,
         "calls.ill_typed": 300,
         "calls.non_binding": 300,
         "kind.def": 300,
@@ -792,6 +792,73 @@ def arm_how_it_was_called(rec):
                 rec.violation("how-called", {"checker": cname, "call": name}, f"wrapper that records how it was called, call {name}: plain saw {s1} -> {r1}, decorated saw {s2} -> {r2}", mechanism="wrapped-callee-sees-other-call-shape")
 
 
+_PROP_SRC = '''
+import numpy as np
+from jaxtyping import Float, jaxtyped
+N = np.ndarray
+def getter(self) -> Float[N, "n"]:
+    "the original getter's docstring"
+    return self.v
+def getter_nodoc(self) -> Float[N, "n"]:
+    return self.v
+def new_getter(self) -> Float[N, "n"]:
+    "the replacement getter's docstring"
+    return self.v * 2
+def new_getter_nodoc(self) -> Float[N, "n"]:
+    return self.v * 2
+def setter(self, value):
+    self.v = value
+def deleter(self):
+    self.v = None
+def variants(make):
+    """make(fget) -> the property under test; returns what a program can see of it and of properties derived from it"""
+    out = {}
+    for gname, g in (("doc", getter), ("nodoc", getter_nodoc)):
+        for dname, extra in (("", {}), ("+explicit-doc", {"doc": "explicit doc"})):
+            p0 = make(property(g, **extra))
+            derived = {"self": p0, "getter(doc)": p0.getter(new_getter), "getter(nodoc)": p0.getter(new_getter_nodoc), "setter": p0.setter(setter), "deleter": p0.deleter(deleter)}
+            for k, p in derived.items():
+                class Holder:
+                    prop = p
+                    def __init__(self):
+                        self.v = np.ones((2,), dtype="float32")
+                h = Holder()
+                try:
+                    val = float(h.prop.sum())
+                except Exception as e:
+                    val = type(e).__name__
+                can_set = "n/a"
+                if k == "setter":
+                    try:
+                        h.prop = np.zeros((2,), dtype="float32"); can_set = float(h.prop.sum())
+                    except Exception as e:
+                        can_set = type(e).__name__
+                out[f"{gname}{dname}/{k}"] = {"is_property": isinstance(p, property), "doc": p.__doc__, "value": val, "set": can_set, "class_doc_lookup": Holder.__dict__["prop"].__doc__}
+    return out
+'''
+
+
+def arm_property_derivation(rec):
+    """a decorated property is a property like the plain one: docstring, value - and so are the properties DERIVED from
+    it with .getter / .setter / .deleter (the subclass-override idiom `@Base.x.getter`)"""
+    import beartype
+    import typeguard
+
+    from jaxtyping import jaxtyped
+
+    for cname, tc in (("typeguard", typeguard.typechecked), ("beartype", beartype.beartype)):
+        ns = {}
+        real.exec_src(_PROP_SRC, ns)
+        plain = ns["variants"](lambda p: p)
+        deco = ns["variants"](jaxtyped(typechecker=tc))
+        for k in plain:
+            rec.count("property_derivation.compared")
+            rec.case(("property-derivation", cname, k), True)
+            if plain[k] != deco[k]:
+                rec.violation("metadata", {"checker": cname, "property_variant": k}, f"[{cname}] property {k}: plain {plain[k]}, decorated {deco[k]}", mechanism="decorated-property-or-derived-property-differs")
+                return
+
+
 def arm_signature_sources(rec):
     """what is checked is the callable's SIGNATURE (inspect.signature follows __wrapped__ and __call__), wherever the
     annotations physically live: a wrapper that only sets __wrapped__, a callable object (equinox Module without
@@ -835,7 +902,7 @@ def arm_signature_sources(rec):
                     res[iname] = ("ret", r == "ret", len(LOG))
                 except Exception as e:  # noqa
                     res[iname] = ("TypeCheckError" if isinstance(e, TypeCheckError) else type(e).__name__, None, len(LOG))
-            rec.count("signature_sources.targets")
+            rec.count("property_derivation.compared": 20, "signature_sources.targets")
             rec.case(("signature-source", cname, tname), True)
             if res["well"] != ("ret", True, 1) or res["ill"] != ("TypeCheckError", None, 0):
                 rec.violation("signature-source", {"checker": cname, "target": tname}, f"jaxtyped({cname}) over a {tname}: well-typed call {res['well']}, ill-typed call {res['ill']} (expected ('ret', True, 1) and ('TypeCheckError', None, 0))", mechanism="signature-source-" + tname + "-unchecked")
@@ -884,6 +951,7 @@ def run_shard(rec, seed, shard, tier):
         arm_factories(rec)
         arm_signature_sources(rec)
         real.error_formatting_probe(rec, "C07")
+        arm_property_derivation(rec)
     for k in range(CASES[tier]):
         key = f"{seed}/C07/{shard['i']}/{k}"
         run_case(rec, random.Random(key), rngkey=key)
